@@ -49,6 +49,20 @@ Section Struct.
     - apply IH.
   Qed.
 
+  (* the tests of the final loop of Model/GridAlg.v (`oof_view`) ARE the conditions of the two `if`s of the source's final loop, and the
+     translator checked the branches syntactically: the hidden branch is the canonical pair + `order += 1; return`, the absolute branch
+     one align_and_position_item(tree, child, order, ..) + `order += 1`; every node-addressing call of the grid sources on `tree` is one of
+     the sites the resumption turns into Query / SetLayout *)
+  Lemma grid_loops_are_generated (s : GS) :
+    oof_view s = (if grid_final_loop_hidden_test g_position g_bgm s then OHidden
+                  else if grid_final_loop_absolute_test g_position g_bgm s then OAbs s else OSkip) /\
+    grid_hidden_branch_is_canonical = true /\ grid_absolute_branch_is_local = true /\ grid_tree_calls_address_item_only = true.
+  Proof.
+    split; [|repeat split]. unfold oof_view, grid_final_loop_hidden_test, grid_final_loop_absolute_test, g_is_none, g_visible_absolute,
+      s_visible_absolute, s_hidden, s_absolute, ItemFilters.g_is_none, g_is_absolute.
+    destruct (g_bgm s), (g_position s); reflexivity.
+  Qed.
+
   (* ------------------------------------------------------------------------------------------------ the in-flow iterator *)
 
   Lemma in_flow_styles_iff (st : list GS) c s : In (c, s) (in_flow_styles st) <-> nth_error st c = Some s /\ g_in_flow s = true.
